@@ -105,7 +105,15 @@ def hexs(b):
     return b.hex() if b else "."
 
 
+DMARK = b"\x01d:"      # the model-side data of a from_disk.Directory is DMARK + its name: the node hash function (here and
+                       # in the driver) sorts the entries of such a node by name, as Directory.compute_hash does, so
+                       # that two directories with the same children inserted in another order hash alike (they are ==
+                       # and a set keeps one of them); generic nodes keep the insertion-ordered hash of their class
+
+
 def nh(data, entries):
+    if data.startswith(DMARK):
+        entries = sorted(entries, key=lambda e: e[0])
     if data == b"z" and not entries:
         return b""          # a falsy hash: the cache test must be `is None`, not truthiness
     enc = "D" + hexs(data) + "|" + ",".join(hexs(n) + ":" + hexs(d) + ":" + hexs(h) for n, d, h in entries)
@@ -778,7 +786,7 @@ def mdata(node):
     """the model's `data` of an implementation node"""
     from_disk = _mods()[0]
     if isinstance(node, from_disk.Directory):
-        return node.data["name"]
+        return DMARK + node.data["name"]
     if isinstance(node, from_disk.Content):
         return b"%o:" % (int(node.data["perms"]) & 0o777) + node.data["data"]
     return node.data
@@ -1150,9 +1158,14 @@ def expand(c):
     """the primitive operations of a history (chain macro ops unfolded), with the number of primitives per op"""
     prim, sizes, n = [], [], 0
     kinds = []
+    dm = DMARK.hex()
     for op in c["ops"]:
         if op[0] == "N":
             kinds.append(op[1])
+            if op[1] == "d":
+                op = ["N", "d", dm + op[2]]
+        elif op[0] == "W" and op[1] < len(kinds) and kinds[op[1]] == "d":
+            op = ["W", op[1], dm + op[2]]
         if op[0] == "T":
             sub = [["H", op[1]]]
         elif op[0] == "A":
@@ -1164,7 +1177,7 @@ def expand(c):
         elif op[0] == "X":
             kinds += [op[1]] * op[2]
             _, kind, depth, data, direction = op
-            sub = [["N", kind, data] for _ in range(depth)]
+            sub = [["N", kind, (dm + data) if kind == "d" else data] for _ in range(depth)]
             links = [["S", n + i, H(CHAIN_KEY), n + i + 1] for i in range(depth - 1)]
             sub += links if direction == "down" else links[::-1]
             n += depth
